@@ -71,7 +71,9 @@ Definition h_chan (h : shandler) : N := match h with HDns d => d_chan d | HUdp u
      DNS_REQ re-using an identifier overwrites the entry and the older DnsProxy lives on unregistered
      (it is never timed out by the sweep, only retired by its own reply);
    * an open channel always has a registered, present, live UdpProxy — which is what makes the
-     `udphandlers[channel]` look-ups of udp_req total.                                              *)
+     `udphandlers[channel]` look-ups of udp_req total;
+   * (code after the F80 repair) conversely every udphandlers entry belongs to an open channel — which is
+     what makes the Fatal 'UDP connection channel already open' of udp_open unreachable.            *)
 Record sinv (s : sstate) : Prop := {
   si_nd : NoDup (map fst (s_h s));
   si_nd_dns : NoDup (map fst (s_dnsh s));
@@ -82,7 +84,9 @@ Record sinv (s : sstate) : Prop := {
   si_udph : forall ch hid, alookup N.eqb ch (s_udph s) = Some hid -> hid < s_nhid s /\
      forall h, alookup N.eqb hid (s_h s) = Some h -> exists u, h = HUdp u /\ u_chan u = ch;
   si_chan : forall ch, mem ch (s_chan s) = true -> exists hid u, alookup N.eqb ch (s_udph s) = Some hid /\
-     alookup N.eqb hid (s_h s) = Some (HUdp u) /\ u_ok u = true
+     alookup N.eqb hid (s_h s) = Some (HUdp u) /\ u_ok u = true;
+  (* with the F80 repair udphandlers and mux.channels are opened and closed together *)
+  si_udph_chan : forall ch hid, alookup N.eqb ch (s_udph s) = Some hid -> mem ch (s_chan s) = true
 }.
 
 Lemma sinv_init : sinv s_init.
@@ -222,6 +226,7 @@ Proof.
       split; [|exact H3]. rewrite (alookup_new_handler s _ _ I).
       destruct (si_udph s I _ _ H1) as [Hlt _].
       replace (N.eqb hid (s_nhid s)) with false by (symmetry; apply N.eqb_neq; lia). exact H2.
+    + exact (si_udph_chan s I).
   - intros Ho hid h. cbn [s_h]. rewrite (alookup_new_handler s _ _ I). destruct (N.eqb hid (s_nhid s)).
     + intros [= <-]. eexists. reflexivity.
     + apply Ho.
@@ -243,12 +248,13 @@ Qed.
 Lemma udp_open_inv ch data s io : sinv s -> ch <= 65535 -> mem ch (s_chan s) = false ->
   match udp_open ch data s io with
   | Ok (s', io', _) => sinv s' /\ s_chan s' = s_chan s ++ [ch] /\ io' = io
-  | Fatal => True
+  | Fatal => False
   | Crash x => x = XValue /\ undec data = None
   end.
 Proof.
   intros I Hc Hm. unfold udp_open. destruct (undec data) as [fam|]; [|split; reflexivity].
-  rewrite Hm. destruct (amem N.eqb ch (s_udph s)) eqn:Ea; [exact Logic.I|].
+  rewrite Hm. destruct (amem N.eqb ch (s_udph s)) eqn:Ea.
+  { apply amem_true_iff in Ea. destruct Ea as [hid Ea]. rewrite (si_udph_chan s I _ _ Ea) in Hm. discriminate. }
   apply amem_false_iff in Ea. split; [|split; reflexivity].
   set (u0 := {| u_chan := ch; u_sock := s_nsock s; u_ok := true |}).
   constructor; cbn [s_h s_dnsh s_udph s_chan s_nhid].
@@ -276,6 +282,9 @@ Proof.
       rewrite (alookup_aset_other N.eqb Neqb_eq) by exact Hne. split; [exact H1|]. split; [|exact H3].
       rewrite (alookup_new_handler s _ _ I). destruct (si_udph s I _ _ H1) as [Hlt _].
       replace (N.eqb hid (s_nhid s)) with false by (symmetry; apply N.eqb_neq; lia). exact H2.
+  - intros ch0 hid. rewrite mem_app. destruct (N.eq_dec ch0 ch) as [->|Hne].
+    + intros _. cbn [mem existsb]. rewrite N.eqb_refl. apply orb_true_r.
+    + rewrite (alookup_aset_other N.eqb Neqb_eq) by exact Hne. intros H. rewrite (si_udph_chan s I _ _ H). reflexivity.
 Qed.
 
 Definition data_ok (data : bytes) : Prop :=
@@ -283,13 +292,20 @@ Definition data_ok (data : bytes) : Prop :=
 
 Lemma udp_close_inv s ch hid u : sinv s ->
   alookup N.eqb ch (s_udph s) = Some hid -> alookup N.eqb hid (s_h s) = Some (HUdp u) ->
-  sinv {| s_h := aset N.eqb hid (HUdp (set_uok u false)) (s_h s); s_dnsh := s_dnsh s; s_udph := s_udph s;
+  sinv {| s_h := aset N.eqb hid (HUdp (set_uok u false)) (s_h s); s_dnsh := s_dnsh s;
+          s_udph := adel N.eqb ch (s_udph s);
           s_chan := remove_chan ch (s_chan s); s_nsock := s_nsock s; s_nhid := s_nhid s |}.
 Proof.
-  intros I H1 H2. constructor; cbn [s_h s_dnsh s_udph s_chan s_nhid].
+  intros I H1 H2.
+  assert (Hdel : forall ch0 hid0, alookup N.eqb ch0 (adel N.eqb ch (s_udph s)) = Some hid0 ->
+                   ch0 <> ch /\ alookup N.eqb ch0 (s_udph s) = Some hid0).
+  { intros ch0 hid0 H. destruct (N.eq_dec ch0 ch) as [->|Hne].
+    - rewrite (alookup_adel_same N.eqb Neqb_eq) in H by exact (si_nd_udp s I). discriminate.
+    - rewrite (alookup_adel_other N.eqb Neqb_eq) in H by exact Hne. auto. }
+  constructor; cbn [s_h s_dnsh s_udph s_chan s_nhid].
   - apply (aset_nodup N.eqb Neqb_eq). exact (si_nd s I).
   - exact (si_nd_dns s I).
-  - exact (si_nd_udp s I).
+  - apply (adel_nodup N.eqb). exact (si_nd_udp s I).
   - intros hid0 h. destruct (N.eq_dec hid0 hid) as [->|Hne].
     + rewrite (alookup_aset_same N.eqb Neqb_eq). intros [= <-]. exact (si_h s I _ _ H2).
     + rewrite (alookup_aset_other N.eqb Neqb_eq) by exact Hne. apply (si_h s I).
@@ -297,21 +313,25 @@ Proof.
     destruct (N.eq_dec hid0 hid) as [->|Hne].
     + destruct (Hh _ H2) as (d & Hd & _). discriminate.
     + rewrite (alookup_aset_other N.eqb Neqb_eq) by exact Hne. apply Hh.
-  - intros ch0 hid0 H. destruct (si_udph s I _ _ H) as [Hlt Hh]. split; [exact Hlt|]. intros h.
+  - intros ch0 hid0 H. apply Hdel in H. destruct H as [_ H].
+    destruct (si_udph s I _ _ H) as [Hlt Hh]. split; [exact Hlt|]. intros h.
     destruct (N.eq_dec hid0 hid) as [->|Hne].
     + rewrite (alookup_aset_same N.eqb Neqb_eq). intros [= <-]. destruct (Hh _ H2) as (u' & [= <-] & Hc).
       eexists. split; [reflexivity|exact Hc].
     + rewrite (alookup_aset_other N.eqb Neqb_eq) by exact Hne. apply Hh.
   - intros ch0 H. apply mem_remove_chan_iff in H. destruct H as [Hne H].
-    destruct (si_chan s I _ H) as (hid0 & u0 & A1 & A2 & A3). exists hid0, u0. split; [exact A1|]. split; [|exact A3].
+    destruct (si_chan s I _ H) as (hid0 & u0 & A1 & A2 & A3). exists hid0, u0.
+    split; [rewrite (alookup_adel_other N.eqb Neqb_eq) by exact Hne; exact A1|]. split; [|exact A3].
     destruct (N.eq_dec hid0 hid) as [->|Hn2].
     + exfalso. destruct (si_udph s I _ _ A1) as [_ Hh]. destruct (Hh _ H2) as (u1 & [= <-] & Hc1).
       destruct (si_udph s I _ _ H1) as [_ Hh']. destruct (Hh' _ H2) as (u2 & [= <-] & Hc2). congruence.
     + rewrite (alookup_aset_other N.eqb Neqb_eq) by exact Hn2. exact A2.
+  - intros ch0 hid0 H. apply Hdel in H. destruct H as [Hne H]. apply mem_remove_chan_iff.
+    split; [exact Hne|exact (si_udph_chan s I _ _ H)].
 Qed.
 
 Lemma udp_req_inv ch cmd data s io : sinv s -> mem ch (s_chan s) = true ->
-  match udp_req ch cmd data s io with
+  match udp_req all_fixed ch cmd data s io with
   | Ok (s', io', _) => sinv s' /\ incl io' io /\
       s_chan s' = match cmd with FUdpClose => remove_chan ch (s_chan s) | _ => s_chan s end
   | Fatal => False
@@ -333,7 +353,7 @@ Proof.
       rewrite E2 in Eu. inversion Eu; subst. apply N.ltb_lt in Ep. lia.
     + split; [exact I|split; [apply incl_pop|reflexivity]].
   - (* UDP_CLOSE *)
-    rewrite H1, H2. cbn [set_handler s_h s_dnsh s_udph s_chan s_nsock s_nhid].
+    rewrite H1, H2. cbn [set_handler s_h s_dnsh s_udph s_chan s_nsock s_nhid fx80 all_fixed].
     split; [exact (udp_close_inv s ch hid u I H1 H2)|split; [apply incl_refl|reflexivity]].
 Qed.
 
@@ -341,7 +361,7 @@ Lemma s_frame_inv cfg now (f : frame) s io : sinv s -> f_ch f <= 65535 ->
   match s_frame all_fixed cfg now f s io with
   | Ok (s', io', _) => sinv s' /\ s_chan s' = chan_track f (s_chan s) /\ incl io' io /\
                        (only_dns s -> is_dns f -> only_dns s')
-  | Fatal => True
+  | Fatal => False
   | Crash x => (x = XAssert /\ opens f = true /\ mem (f_ch f) (s_chan s) = true) \/
                (x = XValue /\ ~ body_ok f) \/ (x = XOverflow /\ ~ data_body_ok f)
   end.
@@ -356,14 +376,14 @@ Proof.
   - (* UDP_OPEN *)
     destruct (mem ch (s_chan s)) eqn:Hm; [left; repeat split|].
     pose proof (udp_open_inv ch data s io I Hc Hm) as H.
-    destruct (udp_open ch data s io) as [[[s' io'] o]| |x]; [|exact Logic.I|].
+    destruct (udp_open ch data s io) as [[[s' io'] o]| |x]; [|exact H|].
     + destruct H as (I' & Hch & ->). split; [exact I'|]. split; [exact Hch|]. split; [apply incl_refl|].
       intros _ Hd. discriminate.
     + destruct H as [-> Hu]. right. left. split; [reflexivity|]. intros Hn. exact (Hn Hu).
   - (* UDP_DATA *)
     destruct (mem ch (s_chan s)) eqn:Hm.
     + pose proof (udp_req_inv ch FUdpData data s io I Hm) as H.
-      destruct (udp_req ch FUdpData data s io) as [[[s' io'] o]| |x]; [|contradiction|].
+      destruct (udp_req all_fixed ch FUdpData data s io) as [[[s' io'] o]| |x]; [|contradiction|].
       * destruct H as (I' & Hi & Hch). split; [exact I'|]. split; [exact Hch|]. split; [exact Hi|].
         intros _ Hd. discriminate.
       * destruct H as ([-> | ->] & _ & Hb); right; [left|right]; (split; [reflexivity|]);
@@ -372,7 +392,7 @@ Proof.
   - (* UDP_CLOSE *)
     destruct (mem ch (s_chan s)) eqn:Hm.
     + pose proof (udp_req_inv ch FUdpClose data s io I Hm) as H.
-      destruct (udp_req ch FUdpClose data s io) as [[[s' io'] o]| |x]; [|contradiction|].
+      destruct (udp_req all_fixed ch FUdpClose data s io) as [[[s' io'] o]| |x]; [|contradiction|].
       * destruct H as (I' & Hi & Hch). split; [exact I'|]. split; [exact Hch|]. split; [exact Hi|].
         intros _ Hd. discriminate.
       * destruct H as (_ & Hd & _). discriminate.
@@ -380,7 +400,7 @@ Proof.
   - (* anything else *)
     destruct (mem ch (s_chan s)) eqn:Hm.
     + pose proof (udp_req_inv ch FOther data s io I Hm) as H.
-      destruct (udp_req ch FOther data s io) as [[[s' io'] o]| |x]; [|contradiction|].
+      destruct (udp_req all_fixed ch FOther data s io) as [[[s' io'] o]| |x]; [|contradiction|].
       * destruct H as (I' & Hi & Hch). split; [exact I'|]. split; [exact Hch|]. split; [exact Hi|].
         intros _ Hd. discriminate.
       * destruct H as (_ & Hd & _). discriminate.
@@ -414,6 +434,7 @@ Proof.
     + intros ch0 H0. destruct (si_chan s I _ H0) as (hid0 & u & A1 & A2 & A3). exists hid0, u.
       split; [exact A1|]. split; [|exact A3]. destruct (N.eq_dec hid0 hid) as [->|Hne]; [congruence|].
       rewrite (alookup_aset_other N.eqb Neqb_eq) by exact Hne. exact A2.
+    + exact (si_udph_chan s I).
   - intros Ho hid0 h. cbn [set_handler s_h]. destruct (N.eq_dec hid0 hid) as [->|Hne].
     + rewrite (alookup_aset_same N.eqb Neqb_eq). intros [= <-]. eexists. reflexivity.
     + rewrite (alookup_aset_other N.eqb Neqb_eq) by exact Hne. apply Ho.
@@ -510,19 +531,19 @@ Qed.
 Lemma fold_steps_inv {X} (f : X -> sstate -> list io_item -> res (sstate * list io_item * list sout))
   (Inv : sstate -> list io_item -> Prop) (Bad : exn -> Prop) :
   (forall x s io, Inv s io ->
-     match f x s io with Ok (s', io', _) => Inv s' io' | Fatal => True | Crash e => Bad e end) ->
+     match f x s io with Ok (s', io', _) => Inv s' io' | Fatal => False | Crash e => Bad e end) ->
   forall xs s io, Inv s io ->
-     match fold_steps f xs s io with Ok (s', io', _) => Inv s' io' | Fatal => True | Crash e => Bad e end.
+     match fold_steps f xs s io with Ok (s', io', _) => Inv s' io' | Fatal => False | Crash e => Bad e end.
 Proof.
   intros Hf. induction xs as [|x tl IH]; intros s io Hi; cbn [fold_steps]; [exact Hi|].
-  specialize (Hf x s io Hi). destruct (f x s io) as [[[s1 io1] o1]| |e]; cbn [bind]; [|exact Logic.I|exact Hf].
+  specialize (Hf x s io Hi). destruct (f x s io) as [[[s1 io1] o1]| |e]; cbn [bind]; [|exact Hf|exact Hf].
   specialize (IH s1 io1 Hf). destruct (fold_steps f tl s1 io1) as [[[s2 io2] o2]| |e]; cbn [bind]; assumption.
 Qed.
 
 Lemma visits_inv cfg ready hids s io : sinv s ->
   match fold_steps (visit all_fixed cfg ready) hids s io with
   | Ok (s', io', _) => sinv s' /\ s_chan s' = s_chan s /\ incl io' io /\ (only_dns s -> only_dns s')
-  | Fatal => True
+  | Fatal => False
   | Crash x => x = XAssert /\ ~ only_dns s /\ ~ Forall io_ok io
   end.
 Proof.
@@ -531,7 +552,7 @@ Proof.
            (fun s' io' => sinv s' /\ s_chan s' = s_chan s /\ incl io' io /\ (only_dns s -> only_dns s'))
            (fun x => x = XAssert /\ ~ only_dns s /\ ~ Forall io_ok io)).
   - intros hid s1 io1 (I1 & Hc1 & Hi1 & Ho1). pose proof (visit_inv cfg ready hid s1 io1 I1) as R.
-    destruct (visit all_fixed cfg ready hid s1 io1) as [[[s2 io2] o2]| |x]; [|exact Logic.I|].
+    destruct (visit all_fixed cfg ready hid s1 io1) as [[[s2 io2] o2]| |x]; [|exact R|].
     + destruct R as (I2 & Hc2 & Hi2 & Ho2). split; [exact I2|]. split; [congruence|].
       split; [eapply incl_tran; eassumption|auto].
     + destruct R as (-> & Hno & Hnf). split; [reflexivity|]. split; [intros Ho; exact (Hno (Ho1 Ho))|].
@@ -546,7 +567,7 @@ Lemma frames_inv cfg now : forall (fs : list frame) s io, sinv s -> Forall (fun 
   match fold_steps (s_frame all_fixed cfg now) fs s io with
   | Ok (s', io', _) => sinv s' /\ s_chan s' = track (s_chan s) fs /\ incl io' io /\
                        (only_dns s -> Forall is_dns fs -> only_dns s')
-  | Fatal => True
+  | Fatal => False
   | Crash x => (x = XAssert /\ ~ no_reopen (s_chan s) fs) \/ (x = XValue /\ ~ Forall body_ok fs) \/
                (x = XOverflow /\ ~ Forall data_body_ok fs)
   end.
@@ -555,9 +576,9 @@ Proof.
   - split; [exact I|split; [reflexivity|split; [apply incl_refl|auto]]].
   - inversion Hw as [|? ? Hf Hw']; subst.
     pose proof (s_frame_inv cfg now f s io I Hf) as R.
-    destruct (s_frame all_fixed cfg now f s io) as [[[s1 io1] o1]| |x]; cbn [bind]; [|exact Logic.I|].
+    destruct (s_frame all_fixed cfg now f s io) as [[[s1 io1] o1]| |x]; cbn [bind]; [|exact R|].
     + destruct R as (I1 & Hc1 & Hi1 & Ho1). specialize (IH s1 io1 I1 Hw').
-      destruct (fold_steps (s_frame all_fixed cfg now) tl s1 io1) as [[[s2 io2] o2]| |x]; cbn [bind]; [|exact Logic.I|].
+      destruct (fold_steps (s_frame all_fixed cfg now) tl s1 io1) as [[[s2 io2] o2]| |x]; cbn [bind]; [|exact IH|].
       * destruct IH as (I2 & Hc2 & Hi2 & Ho2). split; [exact I2|]. split; [rewrite track_cons, <- Hc1; exact Hc2|].
         split; [eapply incl_tran; eassumption|]. intros Ho HF. inversion HF; subst. auto.
       * rewrite Hc1 in IH. destruct IH as [[-> Hn]|[[Hx Hn]|[Hx Hn]]].
@@ -624,6 +645,7 @@ Proof.
         apply mem_In in Em. unfold deadd in Em. apply in_map_iff in Em. destruct Em as ([ch' hid'] & Hs & Hin).
         cbn [snd] in Hs. subst hid'. apply filter_In in Hin. destruct Hin as [_ Hdead].
         unfold dns_dead in Hdead. cbn [snd] in Hdead. rewrite A2, A3 in Hdead. discriminate.
+    + intros ch hid H. apply Hu in H. exact (si_udph_chan s I _ _ H).
   - intros Ho hid h. rewrite Hl. destruct (alookup N.eqb hid (s_h s)) as [h0|] eqn:E; [|discriminate].
     cbn [option_map]. intros [= <-]. destruct (Ho _ _ E) as [d ->]. unfold sweep_val.
     destruct (mem hid deadd); cbn [h_kill]; eexists; reflexivity.
@@ -648,6 +670,7 @@ Proof.
     + intros ch H. destruct (si_chan s I _ H) as (hid & u & A1 & A2 & A3). exists hid, u.
       split; [exact A1|]. split; [|exact A3]. unfold remove_dead. cbn [s_h].
       rewrite (alookup_filter N.eqb Neqb_eq) by exact (si_nd s I). rewrite A2. cbn [snd h_ok]. rewrite A3. reflexivity.
+    + exact (si_udph_chan s I).
   - intros Ho hid h H. apply (Ho hid). apply Hl. exact H.
 Qed.
 
@@ -667,19 +690,19 @@ Lemma sstep_inv cfg s e : sinv s -> Forall chan16 (se_frames e) ->
   match sstep all_fixed cfg s e with
   | Ok (s', _) => sinv s' /\ s_chan s' = track (s_chan s) (se_frames e) /\
                   (only_dns s -> Forall is_dns (se_frames e) -> only_dns s')
-  | Fatal => True
+  | Fatal => False
   | Crash x => step_cause (s_chan s) (only_dns s) e x
   end.
 Proof.
   intros I Hw. unfold sstep.
   pose proof (frames_inv cfg (se_now e) (se_frames e) s (se_io e) I Hw) as R1.
   destruct (fold_steps (s_frame all_fixed cfg (se_now e)) (se_frames e) s (se_io e)) as [[[s1 io1] o1]| |x];
-    cbn [bind]; [|exact Logic.I|].
+    cbn [bind]; [|exact R1|].
   2:{ destruct R1 as [[-> H]|[[-> H]|[-> H]]]; [left; split; [reflexivity|left; exact H]|right; left; auto|right; right; auto]. }
   destruct R1 as (I1 & Hc1 & Hi1 & Ho1).
   pose proof (visits_inv cfg (filter (fun k => k <? s_nsock s) (se_ready e)) (map fst (s_h s1)) s1 io1 I1) as R2.
   destruct (fold_steps (visit all_fixed cfg _) (map fst (s_h s1)) s1 io1) as [[[s2 io2] o2]| |x];
-    cbn [bind]; [|exact Logic.I|].
+    cbn [bind]; [|exact R2|].
   - destruct R2 as (I2 & Hc2 & Hi2 & Ho2).
     destruct (sweep_inv (se_now e) s2 I2) as (I3 & Hc3 & Ho3).
     destruct (remove_dead_inv _ I3) as (I4 & Hc4 & Ho4).
@@ -725,17 +748,17 @@ Definition run_cause (open : list N) (dnsonly : Prop) (evs : list sevent) (x : e
   (x = XOverflow /\ ~ all_frames data_body_ok evs).
 
 Lemma srun_inv cfg : forall evs s, sinv s -> all_frames chan16 evs ->
-  sinv (fst (fst (srun all_fixed cfg s evs))) /\
+  sinv (fst (fst (srun all_fixed cfg s evs))) /\ snd (srun all_fixed cfg s evs) <> Fatal /\
   forall x, snd (srun all_fixed cfg s evs) = Crash x -> run_cause (s_chan s) (only_dns s) evs x.
 Proof.
   induction evs as [|e tl IH]; intros s I Hw; cbn [srun].
-  - split; [exact I|]. intros x H. discriminate.
+  - split; [exact I|]. split; [discriminate|]. intros x H. discriminate.
   - apply all_frames_cons in Hw. destruct Hw as [Hw Hwt].
     pose proof (sstep_inv cfg s e I Hw) as R.
     destruct (sstep all_fixed cfg s e) as [[s' o]| |x0].
     + destruct R as (I' & Hc & Ho). specialize (IH s' I' Hwt).
-      destruct (srun all_fixed cfg s' tl) as [[s'' os] r]. cbn [fst snd] in *. destruct IH as [IH1 IH2].
-      split; [exact IH1|]. intros x Hx. specialize (IH2 x Hx). rewrite Hc in IH2.
+      destruct (srun all_fixed cfg s' tl) as [[s'' os] r]. cbn [fst snd] in *. destruct IH as (IH1 & IHf & IH2).
+      split; [exact IH1|]. split; [exact IHf|]. intros x Hx. specialize (IH2 x Hx). rewrite Hc in IH2.
       destruct IH2 as [[-> [H|[H1 H2]]]|[[-> H]|[-> H]]].
       * left. split; [reflexivity|]. left. intros [_ A]. exact (H A).
       * left. split; [reflexivity|]. right. split.
@@ -743,8 +766,8 @@ Proof.
         -- intros A. apply all_io_cons in A. exact (H2 (proj2 A)).
       * right. left. split; [reflexivity|]. intros A. apply all_frames_cons in A. exact (H (proj2 A)).
       * right. right. split; [reflexivity|]. intros A. apply all_frames_cons in A. exact (H (proj2 A)).
-    + cbn [fst snd]. split; [exact I|]. intros x H. discriminate.
-    + cbn [fst snd]. split; [exact I|]. intros x [= <-].
+    + contradiction.
+    + cbn [fst snd]. split; [exact I|]. split; [discriminate|]. intros x [= <-].
       destruct R as [[-> [H|[H1 H2]]]|[[-> H]|[-> H]]].
       * left. split; [reflexivity|]. left. intros [A _]. exact (H A).
       * left. split; [reflexivity|]. right. split.
@@ -770,7 +793,12 @@ Proof. intros H. exact (proj1 (srun_inv cfg evs s_init sinv_init H)). Qed.
    struct.error, TypeError. *)
 Theorem server_crash_classified cfg evs x : all_frames chan16 evs ->
   snd (srun all_fixed cfg s_init evs) = Crash x -> run_cause [] (only_dns s_init) evs x.
-Proof. intros H. exact (proj2 (srun_inv cfg evs s_init sinv_init H) x). Qed.
+Proof. intros H. exact (proj2 (proj2 (srun_inv cfg evs s_init sinv_init H)) x). Qed.
+
+(* ... and (F80 repaired) it never ends with Fatal either, whatever the script *)
+Theorem server_never_fatal cfg evs : all_frames chan16 evs ->
+  snd (srun all_fixed cfg s_init evs) <> Fatal.
+Proof. intros H. exact (proj1 (proj2 (srun_inv cfg evs s_init sinv_init H))). Qed.
 
 Theorem server_crash_kinds cfg evs x : all_frames chan16 evs ->
   snd (srun all_fixed cfg s_init evs) = Crash x -> x = XAssert \/ x = XValue \/ x = XOverflow.
@@ -878,8 +906,9 @@ Definition w_badopen : list sevent :=
 Definition w_bigport : list sevent :=
   [ {| se_now := 0; se_frames := [(5, FUdpOpen, dec 2, 0); (5, FUdpData, dgram_hdr (["a"%char], 65536) [], 0)];
        se_ready := []; se_io := [] |} ].
-(* the Fatal of udp_open: UDP_OPEN, UDP_CLOSE, UDP_OPEN of one identifier inside one iteration (the sweep that
-   forgets the closed association only runs after the iteration) *)
+(* F80, the Fatal of udp_open in the code as found: UDP_OPEN, UDP_CLOSE, UDP_OPEN of one identifier inside one
+   iteration (the sweep that forgets the closed association only runs after the iteration); repaired: UDP_CLOSE
+   forgets the association at once *)
 Definition w_fatal_reopen : list sevent :=
   [ {| se_now := 0; se_frames := [(5, FUdpOpen, dec 2, 0); (5, FUdpClose, [], 0); (5, FUdpOpen, dec 2, 0)];
        se_ready := []; se_io := [] |} ].
@@ -898,7 +927,8 @@ Lemma witnesses_crash :
   snd (srun all_fixed w_scfg s_init w_reopen) = Crash XAssert /\
   snd (srun all_fixed w_scfg s_init w_badopen) = Crash XValue /\
   snd (srun all_fixed w_scfg s_init w_bigport) = Crash XOverflow /\
-  snd (srun all_fixed w_scfg s_init w_fatal_reopen) = Fatal /\
+  snd (srun as_found w_scfg s_init w_fatal_reopen) = Fatal /\
+  snd (srun all_fixed w_scfg s_init w_fatal_reopen) = Ok tt /\
   snd (srun all_fixed w_scfg s_init w_reopen_next_iteration) = Ok tt.
 Proof. vm_compute. repeat split. Qed.
 
